@@ -5,7 +5,7 @@ CONSTANTS
   NRowsSet = {2, 3}
   HdrSet = {FALSE}
   StyleSet = {"ascii", "borderless"}
-  AvailSet <- ADup
+  AvailSet <- ADup2
   IndSet = {0}
   AlignMode = 0
   DupMode = TRUE
